@@ -1,8 +1,84 @@
-(* C02 Emitted JSON equals the documented evaluation of FINAL_OUTPUT.  Statements only. *)
+(* C02 Emitted JSON equals the documented evaluation of FINAL_OUTPUT.
+   Statements only; proofs are in Proofs/{Value,Validate,EvalPure,EvalCache,EvalExamples}.v.
+   The xpath engine, the external properties, the custom functions and the custom_parse
+   functions are Section variables: every theorem holds for ANY deterministic engine/functions.
+   A validated declaration tree is one satisfying wf_b (the shape validate produces; checked on
+   every tree dumped from the implementation); V is the set of nodes of the record tree. *)
 From Coq Require Import String List ZArith NArith Bool.
 Import ListNotations.
-From OV Require Import Base.Bytes Gen.Conv Model.Value Proofs.Value.
+From OV Require Import Base.Bytes Base.Tree Gen.Conv Model.Value Model.XPathFrag Model.Decl Model.Eval.
+From OV Require Import Proofs.Value Proofs.Validate Proofs.EvalPure Proofs.EvalCache Proofs.EvalExamples.
 
-Theorem normalize_notrim_nonstring : forall keep rt v nt nt',
-  (forall s, v <> VStr s) -> normalize nt keep rt v = normalize nt' keep rt v.
-Proof. exact normalize_notrim_nonstring. Qed.
+Section C02.
+  Variable root : tree.
+  Variable query : bytes -> path -> option (list path).
+  Variable ext : bytes -> option bytes.
+  Variable fsigs : bytes -> option fsig.
+  Variable fcall : bytes -> path -> list value -> cfres.
+  Variable pcall : bytes -> path -> cfres.
+  Variable V : path -> Prop.
+  Variable top : vdecl.
+  Hypothesis query_V : forall x p ps, V p -> query x p = Some ps -> Forall V ps.
+  Hypothesis top_wf : wf_b true top = true.
+
+  (* A fresh ParseCtx with the transform cache on returns, for every declaration of the tree at
+     every node, what the cache-off evaluation returns - for every ID type and every assignment
+     of pairwise distinct IDs to the nodes. *)
+  Theorem eval_cache_transparent :
+    forall (K : Type) (K_eqb : K -> K -> bool) (nid : path -> K),
+    (forall a b, K_eqb a b = true -> a = b) ->
+    (forall p q, V p -> V q -> nid p = nid q -> p = q) ->
+    forall d p, In d (subdecls top) -> V p ->
+    fst (eval_cached root query ext fsigs fcall pcall K_eqb nid d p [])
+    = eval_nocache root query ext fsigs fcall pcall d p.
+  Proof. exact (eval_cache_transparent root query ext fsigs fcall pcall V top query_V top_wf). Qed.
+
+  (* C13 (evaluator part): the cache switched on or off, starting from ANY memo whose entries
+     satisfy the invariant, gives the cache-off result and leaves a memo satisfying the invariant. *)
+  Theorem caches_invisible_eval :
+    forall (K : Type) (K_eqb : K -> K -> bool) (nid : path -> K) (disable : bool),
+    (disable = false ->
+       (forall a b, K_eqb a b = true -> a = b) /\
+       (forall p q, V p -> V q -> nid p = nid q -> p = q)) ->
+    forall d p m, In d (subdecls top) -> V p ->
+    memo_sound root query ext fsigs fcall pcall V top K_eqb nid m ->
+    fst (eval root query ext fsigs fcall pcall K K_eqb nid disable false d p m)
+    = eval_nocache root query ext fsigs fcall pcall d p
+    /\ memo_sound root query ext fsigs fcall pcall V top K_eqb nid
+         (snd (eval root query ext fsigs fcall pcall K K_eqb nid disable false d p m)).
+  Proof. exact (caches_invisible_eval root query ext fsigs fcall pcall V top query_V top_wf). Qed.
+
+  (* The result is invariant under any change of the (pairwise distinct) node IDs. *)
+  Theorem eval_id_renaming :
+    forall (K K' : Type) (K_eqb : K -> K -> bool) (K_eqb' : K' -> K' -> bool) (nid : path -> K) (nid' : path -> K'),
+    (forall a b, K_eqb a b = true -> a = b) -> (forall a b, K_eqb' a b = true -> a = b) ->
+    (forall p q, V p -> V q -> nid p = nid q -> p = q) ->
+    (forall p q, V p -> V q -> nid' p = nid' q -> p = q) ->
+    forall d p, In d (subdecls top) -> V p ->
+    fst (eval_cached root query ext fsigs fcall pcall K_eqb nid d p [])
+    = fst (eval_cached root query ext fsigs fcall pcall K_eqb' nid' d p []).
+  Proof. exact (eval_id_renaming root query ext fsigs fcall pcall V top query_V top_wf). Qed.
+End C02.
+
+(* With the cache key of the code before the F2 repair (node ID / hash, without
+   xpathQueryNeeded) the statement is false: the 2-declaration witness of DESIGN section 6 F2. *)
+Theorem eval_cache_old_refuted :
+  exists top, validated ds_f2 = Some top /\ wf_b true top = true /\
+    run_cached true doc_nested top [] <> run_nocache doc_nested top [] /\
+    run_cached false doc_nested top [] = run_nocache doc_nested top [] /\
+    Some (run_nocache doc_nested top []) = run_spec doc_nested ds_f2 [].
+Proof. exact f2_old_key_differs. Qed.
+
+(* Normalisation: omitted unless keep_empty_or_null; trimmed unless no_trim; a cast result has
+   the requested kind or the evaluation fails; non-strings are unaffected by no_trim. *)
+Theorem normalize_laws :
+  (forall nt rt v v', normalize nt false rt v = NSave v' -> is_nil v' = false /\ is_empty v' = false) /\
+  (forall keep s v', normalize false keep None (VStr s) = NSave v' -> v' = VStr (trim_space s) /\ trimmed (trim_space s)) /\
+  (forall keep s v', normalize true keep None (VStr s) = NSave v' -> v' = VStr s) /\
+  (forall nt keep t v v', normalize nt keep (Some t) v = NSave v' -> v' = VNil \/ has_rtype t v') /\
+  (forall keep rt v nt nt', (forall s, v <> VStr s) -> normalize nt keep rt v = normalize nt' keep rt v).
+Proof. exact normalize_laws. Qed.
+
+(* Template expansion needs at most #declarations + 1 units of fuel: a cycle is an error. *)
+Theorem validate_terminates : forall ds fexists pexists, validate ds fexists pexists <> VFuel.
+Proof. exact validate_terminates. Qed.
